@@ -488,6 +488,8 @@ def main():
         b = rng.choice([(2,), (2, 3), (3, 2), (2, 3, 2), (2, 1, 3)])
         r = len(b)
         prog = [(rng.choice(["mul2", "add1", "neg", "clone"]),) for _ in range(rng.randint(0 if rng.random() < 0.5 else 1, 3))]
+        if rng.random() < 0.4:
+            prog = [("setmul3", rng.choice(["a", "b"]), "z")] + prog      # read-compute-write through hook_out / hook_in, first
         if rng.random() < 0.5:
             prog = [("setconst",)] + prog       # an un-batched value written into the (possibly hidden-stack) lazy argument, first
         if not prog:
@@ -499,7 +501,7 @@ def main():
         case = {"batch": list(b), "stack_dim": sd, "in_dim": i, "out_dim": o, "prog": G.sx_prog(prog)}
         got = attempt(lambda: real_vmap(prog, td, i, o))
         ref = attempt(lambda: real_loop(prog, G.make_td(b, lazy=True, stack_dim=sd), i, o))
-        derived = (i % len(b) == sd) and any(p[0] != "setconst" for p in prog)
+        derived = (i % len(b) == sd) and any(p[0] not in ("setconst", "setmul3") for p in prog)
         run.case(("vmap_lazy", str(case)), nontrivial=got[0] == "ok")
         run.count("lazy.path", "hidden-stack" if i % len(b) == sd else "member-wise")
         run.count("lazy.outcome", got[0])
